@@ -35,7 +35,9 @@ LEVEL_TEXT = ("Kernel-checked: executors that own their state produce, under eve
               '(capture_context_mode_is_requested), the tables only grow and entries never change (registry_append_only, '
               'registry_entries_never_change), a build-and-run step shows the same in ANY two process states and every step of EVERY history '
               '(builds, builder reuse, case boundaries) shows what its own recipe determines (build_trace_history_free, '
-              'svc_step_trace_history_free, svc_history_prefix_irrelevant); a key without the mode is proved to leak the first builder\'s mode '
+              'svc_step_trace_history_free, svc_history_prefix_irrelevant); what the mode means, for EVERY key script: a Direct client (capture '
+              'ranked first) publishes each effective key change in the cycle of the change, a deferred client (source ranked first) exactly '
+              'MIN_TD later (direct_publishes_same_cycle, deferred_publishes_next_cycle); a key without the mode is proved to leak the first builder\'s mode '
               '(modeless_key_leaks_mode: the seeded shape) while the first step of a process and other paths stay right under it.')
 LEVEL_NOTE = 'Trusted: Lean kernel; model tied by correspondence. Data races and allocator effects that leave traces unchanged are outside the claim (named runtime behaviour the model cannot exhibit).'
 
